@@ -159,6 +159,13 @@ func (e *c11ex) argsFor(fn string, argc int, auth bool) []string {
 	return out
 }
 
+func lowerFirst(s string) string {
+	if s == "" {
+		return s
+	}
+	return strings.ToLower(s[:1]) + s[1:]
+}
+
 func (e *c11ex) Exec(op string) string {
 	w := strings.Fields(op)
 	if len(w) == 0 {
@@ -222,6 +229,17 @@ func (e *c11ex) Exec(op string) string {
 		identN, route, fn, senderN := w[1], w[2], w[3], w[4]
 		_, info := methodTable()
 		mi, known := info[fn]
+		// another spelling of a registered name (capital first letter, the Go method name): the
+		// arguments are the ones the registered function would take, the name stays as spelled
+		canon := fn
+		if !known {
+			for _, alt := range []string{lowerFirst(fn), lowerFirst(strings.TrimPrefix(strings.TrimPrefix(strings.TrimPrefix(fn, "NBTx"), "Tx"), "Query")), strings.ToLower(fn[:1]) + fn[1:]} {
+				if _, ok := info[alt]; ok && alt != fn {
+					canon, mi, known = alt, info[alt], true
+					break
+				}
+			}
+		}
 		auth := false
 		argc := 0
 		if known {
@@ -238,12 +256,12 @@ func (e *c11ex) Exec(op string) string {
 		case "u0":
 			sender = wd.Users[2]
 		}
-		args := e.argsFor(fn, argc, auth)
+		args := e.argsFor(canon, argc, auth)
 		if auth && sender != nil {
 			args = e.c.Signed(sender, fn, args...)
-		} else if fn == "swapDone" || fn == "multiSwapDone" {
+		} else if canon == "swapDone" || canon == "multiSwapDone" {
 			args = []string{"00", "k"}
-		} else if !known && fn != "batchExecute" && fn != "createIndex" {
+		} else if !known && canon != "batchExecute" && canon != "createIndex" {
 			args = []string{"x"}
 		}
 		before := e.c.L.Snapshot()
@@ -348,6 +366,29 @@ func genC11(c *Cfg, emit func([]string)) {
 				total++
 			}
 		}
+		// other spellings of the privileged and of the disabled names: no such function is registered,
+		// so none of them reaches a method - least of all past the identity or the disabled test
+		for _, fn := range append(append([]string{}, entry...), "executeTasks", "transfer", "script", "scriptNb", "lockTokenBalance", "swapBegin", "multiSwapBegin", "poke") {
+			alts := []string{strings.ToUpper(fn[:1]) + fn[1:]}
+			if mi, ok := info[fn]; ok && c.Rng.Intn(2) == 0 {
+				alts = append(alts, mi[0])
+			}
+			if c.Rng.Intn(3) == 0 {
+				alts = append(alts, strings.ToUpper(fn))
+			}
+			for _, alt := range alts {
+				for _, id := range []string{"client", "robot"} {
+					routes := []string{"direct", "batch", "task"}
+					for _, route := range routes {
+						if route != "direct" && c.Rng.Intn(2) == 0 {
+							continue
+						}
+						h = append(h, fmt.Sprintf("call %s %s %s %s", id, route, alt, senders[c.Rng.Intn(3)]))
+						total++
+					}
+				}
+			}
+		}
 		// methods x routes x senders (creator: ordinary client, sometimes others)
 		for _, fn := range pool {
 			mi, known := info[fn]
@@ -384,6 +425,6 @@ func genC11(c *Cfg, emit func([]string)) {
 		}
 		emit(h)
 	}
-	c.Rule = fmt.Sprintf("%d configurations (subsets of a 6-function disabled pool, swap and multi-swap switches, with and without an options section, robot configured by key id or by certificate hash) x { 9 entry points x 5 caller identities (robot, admin-OU cert, ordinary cert, no creator, garbage creator); 23 functions (scripted tx/nbtx/query bodies with and without sender, transfer, swap and multi-swap methods, the 6 admin-only methods, unknown function) x routes (direct or batched submission+execution, task execution) x signed senders (admin, issuer, stranger) }: %d calls; plus re-initialisations of the same instance with another admin address followed by the admin-only methods under the old and the new admin; plus Init under every identity and under certificates whose organisational units are near-misses of 'admin' (substrings, superstrings, other letter case, several units). Observed: refusal class / pass, and the business-ledger diff on refusal. non-trivial = every configuration history; distinct = sha256", nCfg, total)
+	c.Rule = fmt.Sprintf("%d configurations (subsets of a 6-function disabled pool, swap and multi-swap switches, with and without an options section, robot configured by key id or by certificate hash) x { 9 entry points x 5 caller identities (robot, admin-OU cert, ordinary cert, no creator, garbage creator); 23 functions (scripted tx/nbtx/query bodies with and without sender, transfer, swap and multi-swap methods, the 6 admin-only methods, unknown function) x routes (direct or batched submission+execution, task execution) x signed senders (admin, issuer, stranger) }: %d calls; plus re-initialisations of the same instance with another admin address followed by the admin-only methods under the old and the new admin; plus other spellings (capital first letter, Go method name, upper case) of the entry points and of privileged / disabled functions on every route, which must be unknown functions; plus Init under every identity and under certificates whose organisational units are near-misses of 'admin' (substrings, superstrings, other letter case, several units). Observed: refusal class / pass, and the business-ledger diff on refusal. non-trivial = every configuration history; distinct = sha256", nCfg, total)
 	c.Extra = map[string]any{"configurations": nCfg, "calls": total}
 }
